@@ -349,28 +349,38 @@ func init() {
 	// a.plus / a.mult: Args = 1..4 numbers; the wrapping sum / product (one argument: the argument).
 	laws["a.plus"] = func(e *env) {
 		var s int64
+		exact := new(big.Int)
 		for _, x := range ints(e.c.Args) {
 			s += x
+			exact.Add(exact, big.NewInt(x))
 		}
+		e.wraps(exact)
 		e.wantFn("fn:plus", val.I(s), e.c.Args...)
 	}
 	laws["a.mult"] = func(e *env) {
 		p := int64(1)
+		exact := big.NewInt(1)
 		for _, x := range ints(e.c.Args) {
 			p *= x
+			exact.Mul(exact, big.NewInt(x))
 		}
+		e.wraps(exact)
 		e.wantFn("fn:mult", val.I(p), e.c.Args...)
 	}
 	// a.minus: Args = 1..4 numbers; (x - y1) - y2 ..., one argument: -x (wrapping).
 	laws["a.minus"] = func(e *env) {
 		xs := ints(e.c.Args)
 		d := xs[0]
+		exact := big.NewInt(xs[0])
 		if len(xs) == 1 {
 			d = -d
+			exact.Neg(exact)
 		}
 		for _, y := range xs[1:] {
 			d -= y
+			exact.Sub(exact, big.NewInt(y))
 		}
+		e.wraps(exact)
 		e.wantFn("fn:minus", val.I(d), e.c.Args...)
 	}
 	// a.div1: Args = [x]. fn:div(x) is the integer 1/x; x = 0 is a division by zero.
@@ -649,6 +659,14 @@ func init() {
 	}
 }
 
+// wraps records that the exact result of a ring operation does not fit int64 (the law then is about
+// the two's-complement wrap).
+func (e *env) wraps(exact *big.Int) {
+	if !exact.IsInt64() {
+		e.class("wraps")
+	}
+}
+
 func (e *env) hit(b bool) {
 	if b {
 		e.class("pattern-hit")
@@ -704,6 +722,13 @@ func lawFold(sym string, nargs int, model func(xs []int64) int64) func(e *env) {
 	return func(e *env) {
 		rows := column(e.c.Args)
 		want := val.I(model(ints(e.c.Args)))
+		if sym == "fn:sum" {
+			exact := new(big.Int)
+			for _, x := range ints(e.c.Args) {
+				exact.Add(exact, big.NewInt(x))
+			}
+			e.wraps(exact)
+		}
 		seen := map[string]bool{}
 		for _, a := range e.c.Args {
 			if seen[a.Key()] {
